@@ -402,6 +402,16 @@ def stop_start_native(ck, prop):
                 ck.violation('record-changed-outside-an-update', 'the daemon published record B (as_of 200 s, void_after 1200 s, Synchronized) and stopped cleanly; %s then obtains (as_of, void_after, bound, status) = %s under generation %s - a record the daemon never published in full (the stop rewrote part of the record without going through the generation protocol: record changed by the stop = %s)'
                              % ('the attached client' if who.startswith('attached') else 'a new client', got, f.get('gen_after_stop'), f.get('record_changed_by_stop')), {'cmd': 'stopstart', 'native': out})
                 return
+    if prop == 'C03':
+        C = '300:1:1300:0:300:1'
+        if f.get('attached_client_after_restart') not in (C,) and not f.get('attached_client_after_restart', '').startswith('err_'):
+            ck.violation('reader-misses-publication', 'a client attached since before a clean daemon stop; the restarted daemon published record C (as_of 300 s) and is idle: the client obtains %s, not C (generation after the restart %s, after the publication %s)'
+                         % (f.get('attached_client_after_restart'), f.get('gen_after_restart'), f.get('gen_after_first_write')), {'cmd': 'stopstart', 'native': out})
+            return
+        if f.get('attached_client_third_life') and f.get('attached_client_third_life') != f.get('last_published') and not f.get('attached_client_third_life', '').startswith('err_'):
+            ck.violation('reader-misses-publication', 'a client stays attached across two daemon restarts; it last saw generation %s; the third daemon published %s record(s) while the client was not looking and is idle (generation %s): the client obtains %s, an older record than the last published %s - the restarted daemon re-used generation values the client had already seen'
+                         % (f.get('gen_after_first_write'), f.get('third_life_publications'), f.get('gen_third_life'), f.get('attached_client_third_life'), f.get('last_published')), {'cmd': 'stopstart', 'native': out})
+            return
     if prop == 'C11':
         g0, g1, g2, g3 = [int(f.get(k, '-1')) for k in ('gen_before_stop', 'gen_after_stop', 'gen_after_restart', 'gen_after_first_write')]
         if g1 != g0 or g2 == 0 or g3 == 0 or g3 % 2 == 1 or g2 % 2 == 1 or g3 == g0 or (g2 != g0):
@@ -455,6 +465,18 @@ def check_c02(tier, seed):
         tasks.append(Task('N=%d: retries at least once, then accepts' % N, sc, fin + [o['ok'], o['iters'] >= 2], 'witness'))
         tasks.append(Task('N=%d: exhausts its retry budget against a stalled update and returns the error' % N, sc, fin + [o['exhausted']], 'witness'))
     run_tasks(ck, tasks, seed)
+    # a reader's "generation unchanged" test is only as good as the rule that a generation value is never used twice while a client holds
+    # the segment: a restarting daemon takes every segment a crash can leave (odd generation included) over in place instead of wiping it
+    # and counting from 0 again (clauses of C04 / C11, discharged here on the same tree)
+    if not ck.violations:
+        try:
+            pru = Prover(seed)
+            usable_clause(ck, P, pru, seed)
+            ck.absorb(pru, 'restart: ')
+        except EngineError as e:
+            ck.inconclusive.append('restart: %s' % e)
+    if not ck.violations:
+        restart_chain_native(ck)
     ck.cov['bounds'] = {'publications_overlapping_one_call': Ns, 'retry_loop_unrolling': 'R = 2N+1 (complete up to stuttering iterations, DESIGN.md 3.3)',
                         'record_words': NW, 'start_generation': 'any u16 (even, odd left by a crash, 0 freshly wiped)', 'reader': 'any state satisfying the history invariant',
                         'outside': 'more than N publications overlapping one call (in particular the 32767*k ABA case); calls needing more than R iterations'}
@@ -568,6 +590,9 @@ def check_c03(tier, seed):
     open_race_native(ck)
     if not ck.violations:
         one_field_sequences_native(ck)
+    if not ck.violations:
+        # publication order continues across daemon restarts for a client that stays attached
+        stop_start_native(ck, 'C03')
     try:
         return _check_c03_symbolic(ck, tier, seed)
     except EngineError as e:
@@ -1186,6 +1211,21 @@ def client_wrappers_bounded(ck, seed):
         ck.cov['evaluations'] += 1
         if out.startswith('ok hung') and hung is None:
             hung = (which, out)
+    # a call that ran out of retries (the daemon died inside an update while the call was copying the record) returns an error after
+    # bounded work - and so does the NEXT call on the same client object
+    runs2 = {}
+    for which in ('rust', 'c'):
+        out = rp.ask('nowahead %s 20000 stalled' % which)
+        runs2[which] = out[:200]
+        ck.cov['evaluations'] += 1
+        if out.startswith('ok hung') and hung is None:
+            ck.violation('client-call-spins', 'the daemon published a record and died inside its next update while a call of %s was copying the record; the calls on that client object: %s - a call had not returned 20 s later'
+                         % ('ClockBoundClient::now()' if which == 'rust' else 'clockbound_now()', out[out.find(')') + 1:].strip() or 'the first one never returned'), {'cmd': 'nowahead %s 20000 stalled' % which, 'native': out})
+            pr.handled = {n for n, m in pr.failed}
+            break
+        if not out.startswith('ok returned') or 'call2=' not in out:
+            ck.inconclusive.append('stalled-writer run of the %s client: %s' % (which, out[:160]))
+    ck.cov['native_daemon_died_while_the_call_was_copying'] = runs2
     rp.close()
     ck.cov['native_record_ahead_of_the_clock'] = runs
     if hung:
@@ -1366,8 +1406,21 @@ def restart_chain_native(ck):
             cur = f['bytes']
         rp.close()
         outs.append({'generation': gen, 'chain': [c[:60] for c in chain]})
+    # the path clients and the daemon use is a symbolic link to the segment file: a restart takes the segment over through the link (same
+    # file, same content): it does not replace the link by a new file that attached clients never see
+    if not bad:
+        hdr = struct.pack('<IIIHH', MAGIC0, MAGIC1, 72, 1, 6)
+        rec = struct.pack('<qqqqqIIiI', 11, 22, 33, 44, 55, 66, 0, 1, 0)
+        rp = common.Replay('debug')
+        out = rp.ask('recreate_link ' + (hdr + rec).hex())
+        rp.close()
+        f = dict(x.split('=', 1) for x in out.split()[1:] if '=' in x) if out.startswith('ok') else {}
+        outs.append({'through_a_symbolic_link': out[:200]})
+        if out.startswith('ok') and (f.get('via_link') != (hdr + rec).hex() or f.get('bytes') != (hdr + rec).hex()):
+            bad.append('the path is a symbolic link to a valid published segment (generation 6): after the daemon start the file clients have mapped holds %s... and the path leads to %s... (still a link: %s): the valid segment was not taken over in place through the link'
+                       % ((f.get('bytes') or '')[24:48], (f.get('via_link') or '')[24:48], f.get('still_link')))
     ck.cov['native_restart_chain'] = outs
-    ck.cov['evaluations'] += 9
+    ck.cov['evaluations'] += 10
     # the other half of clause (c): a daemon KILLED at any write of wipe() (cold start, or repair of an unusable file) leaves something
     # the next start repairs: the restarted daemon starts, publishes, and a new client attaches and reads that publication
     rp = common.Replay('debug')
